@@ -671,6 +671,35 @@ def c19(res, tier, seed, deep):
         same = outs[0] == outs[1] == outs[2]
         res.add(r + " #repeat-heavy", outs[0], outs[0], "same", (lambda x, same=same, outs=outs: "same" if same else f"differs: {outs[1][:100]} / {outs[2][:100]}"))
     res.tags["heavy_positions_max_moves"] = max(len(ms) for f, ms in mv) if mv else 0
+    # a LONG history inside one process (thorough tier, and whenever the searcher's source changed): one public search S
+    # repeated after 1, 2, 64, 128, 255, 256, 257, 258 … other fresh public searches — anything that survives from one
+    # "fresh" search to another (pooled tables, counters that wrap, statics) shows as a different answer for S
+    if tier == "thorough" or deep:
+        # probes: distinct (seed, position) pairs, each run exactly TWICE in one process with 1, 64, 128, 255, 256 and 257
+        # other fresh searches in between and never in between themselves (an 8-bit counter wraps after 256)
+        gaps = [1, 64, 128, 255, 256, 257]
+        probes = [f"searchpub {4242 + g} 3 {fens[g % 7]}" for g in gaps]
+        slots = {}
+        for n_, g in enumerate(gaps):
+            slots[n_] = probes[n_]
+            slots[n_ + g] = probes[n_] if (n_ + g) not in slots else slots[n_ + g]
+        # resolve clashes by shifting later probes (keep it simple: build explicitly)
+        soak = [None] * (max(gaps) + len(gaps) + 2)
+        pairs = []
+        for n_, g in enumerate(gaps):
+            a_ = n_
+            while soak[a_] is not None or soak[a_ + g] is not None:
+                a_ += 1
+            soak[a_], soak[a_ + g] = probes[n_], probes[n_]
+            pairs.append((g, a_, a_ + g))
+        soak = [x if x is not None else f"searchpub {rnd.getrandbits(32)} 1 {rnd.choice(fens[7:])}" for x in soak]
+        so, _, _ = wee.run_lines(wee.harness_path(), soak, timeout=3600)
+        so += ["<no-output>"] * (len(soak) - len(so))
+        for g, a_, b_ in pairs:
+            same = so[a_] == so[b_]
+            res.add(soak[a_] + f" #repeat-after-{g}-fresh-searches", so[a_], so[a_], "same",
+                    (lambda x, same=same, o=so[b_]: "same" if same else "differs: " + o[:160]))
+        res.tag("long_history_soak")
     return "legal positions from play; seeds; depth limits 1-3 (thorough: 4) with an explicit single worker through the hook: the real StatusEvent sequence (lines, evaluations, node counts, table entries) must equal the Lean model's prediction exactly, be identical when repeated in one process and in a fresh process; depth limits 1-3 through the public Searcher::analyze repeated across processes, depth 3 three times on the positions with the most legal moves (queen-rich positions, up to 218 moves)"
 
 
@@ -960,6 +989,17 @@ def c17(res, tier, seed, deep):
             for dd in (d, d + 2):
                 reqs.append(f"search {rnd.getrandbits(32)} {dd} 1 - 2 64 1 {succ} {f}")
                 meta.append((d, raw, f))
+    # LONG histories: the recorded successor among 100-250 other recorded positions, once or twice (a game of that many
+    # moves): the history is a set of everything ever recorded, however long ago
+    filler = positions(seed + 41, 300)
+    for (d, raw, f), r0 in list(zip(meta, reqs))[:: max(1, len(reqs) // (40 if tier == "thorough" else (16 if deep else 6)))]:
+        succ = r0.split(" ")[8]
+        k1, k2 = rnd.randrange(50, 130), rnd.randrange(40, 120)
+        fl = [x.replace(" ", "_") for x in rnd.sample(filler, min(len(filler), k1 + k2))]
+        hist = [succ] + fl[:k1] + ([succ] if rnd.random() < 0.6 else []) + fl[k1:k1 + k2]
+        reqs.append(f"search {rnd.getrandbits(32)} {d} 1 - 2 64 {len(hist)} {' '.join(hist)} {f}")
+        meta.append((d, raw, f))
+        res.tag("long_history")
     impl = exact_searches(res, reqs)
     mreqs, mmeta = [], []
     for r, mt in rnd.sample(list(zip(reqs, meta)), min(len(reqs), max(3, len(reqs) // 4))):
@@ -1065,7 +1105,11 @@ def run_sessions(res, tag, sessions, parallel=4, strict_bestmove=True):
     res.tags["pv_lines_checked"] = res.tags.get("pv_lines_checked", 0) + npv
     for (name, cmds, eof, steps), probs in zip(planned, results):
         req = f"session {name}: " + " ; ".join(c for c, d in cmds)[:1500] + (" ; <EOF>" if eof else "")
-        res.add(req, "accepted" if not probs else "rejected: " + " | ".join(probs)[:1200], "accepted", "accepted", None)
+        # problems prefixed `trace:` are differences between the real loop's internal state (hook) and the session MODEL:
+        # a broken correspondence, not an observable violation — the spec view only sees the others
+        obs = [q for q in probs if not q.startswith("trace:")]
+        res.add(req, "accepted" if not probs else "rejected: " + " | ".join(probs)[:1200], "accepted", "accepted",
+                (lambda x, obs=obs: "accepted" if not obs else "rejected: " + " | ".join(obs)[:1200]))
         res.tag(tag)
         for st in steps:
             res.tag("cmd_" + (st["first"] or "empty"))
@@ -1105,20 +1149,37 @@ def c18(res, tier, seed, deep):
             return cmds[:k] + tail
         sessions.append((f"newgame-{seed}-{i}", mk, False))
     out = run_sessions(res, "sessions", sessions)
-    # the mate-in-one must be played after ucinewgame exactly as in a fresh process
+    # OBSERVABLE: a mate-in-one (…Rd1#) whose mated successor was a search root of game 1 must be played after ucinewgame
+    # exactly as in a fresh process — whatever game 1 looked like (search collected by stop/position/go or not) and whatever
+    # comes between `ucinewgame` and the search (nothing, isready, a book `go` from the start position, stop, a second
+    # ucinewgame, position commands): a stale history would value the mating move as a repetition
     exe, _ = wee.build_weechess()
     if exe:
         pl = uci_proc.Planner()
-        game2 = [("position fen 8/8/8/8/8/k2r4/8/K7 b - - 4 3", 0), ("go depth 3", 0), ("stop", 1.0)]
-        stale = pl.plan([("position fen 8/8/8/8/8/k7/8/K2r4 w - - 5 4", 0), ("go depth 1", 0), ("stop", 0.3), ("ucinewgame", 0)] + game2)
-        fresh = pl.plan(game2)
+        mated, pred = "8/8/8/8/8/k7/8/K2r4 w - - 5 4", "8/8/8/8/8/k2r4/8/K7 b - - 4 3"
+        probe = [(f"position fen {pred}", 0), ("go depth 3", 0), ("stop", 1.0)]
+        game1s = [[(f"position fen {mated}", 0), ("go depth 1", 0), ("stop", 0.3)],
+                  [(f"position fen {mated}", 0), ("go depth 1", 0)],
+                  [(f"position fen {mated}", 0), ("go", 0), ("position startpos", 0.2)],
+                  [(f"position fen {pred}", 0), ("go depth 2", 0), ("stop", 0.5), (f"position fen {mated}", 0), ("go depth 1", 0), ("stop", 0.2)]]
+        middles = [[], [("isready", 0)], [("position startpos", 0), ("go", 0)], [("position startpos", 0), ("go depth 1", 0), ("isready", 0)],
+                   [("stop", 0)], [("ucinewgame", 0)], [("position startpos moves e2e4", 0), ("go", 0), ("stop", 0)],
+                   [("position startpos", 0), ("go", 0), ("position startpos moves d2d4 d7d5", 0), ("go", 0)]]
+        fresh = pl.plan(probe)
+        cf = {}
+        uci_proc.run_session(exe, fresh, capture=cf)
+        want = (cf.get("bestmoves") or ["none"])[-1]
+        combos = [(g, m) for g in game1s for m in middles]
+        if not (tier == "thorough" or deep):
+            combos = [combos[0]] + rnd.sample(combos[1:], 7)
+        for g, m in combos:
+            cmds = g + [("ucinewgame", 0)] + m + probe
+            c1 = {}
+            uci_proc.run_session(exe, pl.plan(cmds), capture=c1, strict_bestmove=False)
+            got = (c1.get("bestmoves") or ["none"])[-1]
+            res.add("session observable (mate-in-1 after ucinewgame vs a fresh process): " + " ; ".join(c for c, d in cmds), got, got, want, None)
+            res.tag("observable_newgame_sessions")
         pl.close()
-        c1, c2 = {}, {}
-        uci_proc.run_session(exe, stale, capture=c1)
-        uci_proc.run_session(exe, fresh, capture=c2)
-        a, b = (c1.get("bestmoves") or ["none"])[-1], (c2.get("bestmoves") or ["none"])[-1]
-        res.add("session observable: mate-in-1 (Rd1#) searched after `go; stop; ucinewgame` on its successor vs in a fresh process",
-                a, a, b, None)
     return "command histories (searches finished, running, stopped or not) followed by ucinewgame: the hook trace must show no running search and no stored artifact, and the following search is planned by the model as a fresh-memory search; plus the observable scenario: the successor of a mate-in-1 is searched in game 1, after ucinewgame the mating move must still be played (a stale history would treat it as a repetition)"
 
 
@@ -1562,6 +1623,54 @@ def c20(res, tier, seed, deep):
                 o, d = rnd.choice([0, 7, 56, 63, 8, 48]), rnd.choice([0, 7, 56, 63, 16, 24, 32, 40])
             kind = rnd.choice(["move", "cap", "promo", "cappromo", "ep"])
             reqs.append(f"mv {kind} {c} {p} {o} {d} {rnd.randrange(1, 6)} {rnd.randrange(2, 6)}")
+    # equality: two constructed moves are equal exactly when all their attributes are — pairs that differ in ONE attribute
+    # (each field, each marker: en passant vs the pawn capture on the same squares, promotion vs none, capture kinds, colour,
+    # castle sides …) and identical pairs; `==`, `Hash` and HashSet membership of the real type
+    def mvspec(kind, c, p, o, d, cap, pr):
+        return f"{kind} {c} {p} {o} {d} {cap} {pr}"
+    eqreqs = []
+    for _ in range(40000 if tier == "thorough" else (12000 if deep else 4000)):
+        c, p, o, d = rnd.choice("wb"), rnd.randrange(1, 7), rnd.randrange(64), rnd.randrange(64)
+        cap, pr = rnd.randrange(1, 6), rnd.randrange(2, 6)
+        kind = rnd.choice(["move", "cap", "promo", "cappromo", "ep"])
+        if kind == "ep":
+            p = 1
+        a = (kind, c, p, o, d, cap, pr)
+        b = list(a)
+        m = rnd.randrange(9)
+        if m == 0:
+            pass                                   # identical
+        elif m == 1:
+            b[1] = "b" if c == "w" else "w"
+        elif m == 2:
+            b[2] = rnd.choice([x for x in range(1, 7) if x != p])
+        elif m == 3:
+            b[3] = rnd.choice([x for x in range(64) if x != o])
+        elif m == 4:
+            b[4] = rnd.choice([x for x in range(64) if x != d])
+        elif m == 5:
+            b[5] = rnd.choice([x for x in range(1, 6) if x != cap])
+        elif m == 6:
+            b[6] = rnd.choice([x for x in range(2, 6) if x != pr])
+        elif m == 7:                               # same squares, other constructor (the markers)
+            b[0] = rnd.choice([k for k in ["move", "cap", "promo", "cappromo", "ep"] if k != kind])
+            if b[0] == "ep" or kind == "ep":
+                a = (a[0], c, 1, o, d, 1, pr)      # en passant vs pawn-takes-pawn on the same squares
+                b = [b[0], c, 1, o, d, 1, pr]
+        else:
+            eqreqs.append("mveq castle w K - - - - castle " + rnd.choice(["w K", "w Q", "b K", "b Q"]) + " - - - -")
+            continue
+        eqreqs.append("mveq " + mvspec(*a) + " " + mvspec(*b))
+    eimpl, _, _ = wee.run_lines(wee.harness_path(), eqreqs)
+    edrv, _, _ = wee.run_driver(eqreqs)
+    if len(eimpl) != len(eqreqs):
+        res.broken.append("harness died on mveq requests")
+        eimpl += ["<no-output>"] * (len(eqreqs) - len(eimpl))
+    for req, i, (m, sp) in zip(eqreqs, eimpl, edrv):
+        # unequal moves may share a 64-bit hash by chance: only eq / set are judged then
+        norm = (lambda x: re.sub(r" hasheq=\d", "", x) if x.startswith("eq=0") else x)
+        res.add(req, norm(i), norm(m), norm(sp), norm)
+        res.tag("mveq_" + ("same" if sp.startswith("eq=1") else "different"))
     for i in range(0, len(reqs), 250000):
         chunk = reqs[i:i + 250000]
         impl, rc, err = wee.run_lines(wee.harness_path(), chunk)
